@@ -151,7 +151,7 @@ def handle (args : List String) : String :=
         ++ " imports=" ++ b (importsOk proj rank) ++ " once=" ++ b (boundOnce proj rank)
         ++ " nobases=" ++ b (noBases proj) ++ " nostarinclass=" ++ b (noStarInClass proj)
         ++ " noreexport=" ++ b (noReexport proj) ++ " roots=" ++ b (rootsReserved proj)
-        ++ " names=" ++ b (namesOk proj)
+        ++ " names=" ++ b (namesOk proj) ++ " unique=" ++ b (namesUnique proj) ++ " basesne=" ++ b (basesNonempty proj)
     | none => "bad-request"
   | _ => "bad-op"
 
@@ -194,7 +194,11 @@ def handle (args : List String) : String :=
       let s := run proj ord
       if s.err then "ok err=true" else
       "ok err=false | " ++ dumpPy proj s ++ " | "
-        ++ " ".intercalate (qs.map fun q => Imports.showIdent (denoteAt proj s q.m q.cp q.name))
+        ++ " ".intercalate (qs.map fun q => Imports.showIdent (denoteAt proj s q.m q.cp q.name)
+            -- `+`: every class step of the name stays in the class's own namespace (`pyOwn`)
+            ++ (match walkNs s (nsOf s q.m) q.cp with
+                | some ns => if ownIn s ns q.name then "+" else "-"
+                | none => "+"))
     | _, _ => "bad-request"
   | _ => "bad-op"
 
